@@ -3,7 +3,7 @@ FRAGMENT = {
  'C01': {'bin': 'w_c01',
  'world': 'c01',
  'level': 'exploration',
- 'quick': {'runs': 12000, 'budget_s': 35, 'workers': 16},
+ 'quick': {'runs': 30000, 'budget_s': 35, 'workers': 16},
  'thorough': {'runs': 400000, 'budget_s': 900, 'workers': 16, 'det_sample': 100},
  'level_text': 'seeded exploration of broadcaster x viewer histories on one vbi_decoder: frames of 0-40 sliced lines (Teletext Level 1-3.5 pages, POP/GPOP/DRCS/MOT/MIP/BTT/AIT/MPT '
                'tables, EACEM trigger page, 8/30, caption channels 1-8, XDS of every class, ITV triggers, VPS, WSS, CPR-1204, random lines) through a faulty channel and with '
